@@ -7,6 +7,7 @@ package main
 //   frame/getenv-callers        os.Getenv is called only by values.SetFromEnv, which is called only by mkOpt and mkArg
 //   frame/no-goroutines/<f>     f starts no goroutine and uses no channel or select (sequential subset)
 //   frame/setbyuser-writer/<f>  only fsm.fillContainers stores through the pointer held in Container.ValueSetByUser
+//   frame/spec-writer/<f>       only Cmd.doInit (which synthesises the default spec) assigns Cmd.Spec inside the library
 
 import (
 	"fmt"
@@ -45,13 +46,23 @@ func (x *Exec) frameSweep() {
 			continue
 		}
 		name := shortPkg(pkg) + "." + k[strings.Index(k, "::")+2:]
-		var writes, reads, conc, sbu []string
+		var writes, reads, conc, sbu, specw []string
 		for _, b := range fn.Blocks {
 			for _, in := range b.Instrs {
 				switch in := in.(type) {
 				case *ssa.Store:
 					if g, ok := rootOf(in.Addr).(*ssa.Global); ok {
 						writes = append(writes, g.Name()+" at "+x.posStr(in.Pos()))
+					}
+					// an assignment to Cmd.Spec
+					if fa, ok := in.Addr.(*ssa.FieldAddr); ok {
+						if pt, ok := fa.X.Type().Underlying().(*types.Pointer); ok {
+							if nt, ok := pt.Elem().(*types.Named); ok && nt.Obj().Name() == "Cmd" {
+								if stt, ok := nt.Underlying().(*types.Struct); ok && stt.Field(fa.Field).Name() == "Spec" {
+									specw = append(specw, x.posStr(in.Pos()))
+								}
+							}
+						}
 					}
 					// a store through the pointer held in Container.ValueSetByUser
 					if ld, ok := in.Addr.(*ssa.UnOp); ok {
@@ -95,6 +106,7 @@ func (x *Exec) frameSweep() {
 		add("global-reads/"+name, len(reads) == 0, strings.Join(reads, "; "))
 		add("no-goroutines/"+name, len(conc) == 0, strings.Join(conc, "; "))
 		add("setbyuser-writer/"+name, len(sbu) == 0 || name == "fsm.fillContainers", "writes *ValueSetByUser at "+strings.Join(sbu, "; "))
+		add("spec-writer/"+name, len(specw) == 0 || name == "mow.cli.(*Cmd).doInit", "assigns Cmd.Spec at "+strings.Join(specw, "; "))
 	}
 	okGetenv := len(getenvCallers) == 1 && getenvCallers["values.SetFromEnv"]
 	okCallers := true
